@@ -322,6 +322,24 @@ def _site(case):
         raise
     except Exception as e:
         raise crash_violation("call-site", e, tags)
+    # the sampler as the run command wires it (setup_samplers): after the chain's generator has been used, an update must
+    # not reproduce what a generator in the chain's INITIAL state gives - i.e. it must not replay numbers already consumed
+    try:
+        from phyclone.run import setup_kernel, setup_samplers
+
+        sd = 1000 + 7 * n + mt.k
+        rng = np.random.default_rng(sd)
+        td3 = TreeJointDistribution(FSCRPDistribution(case["alpha"]))
+        smp = setup_samplers(setup_kernel(case["prior"], "semi-adapted", rng, td3), 2, case["prior"], 0.5, rng, td3)
+        rng.random(17)
+        cs = smp.conc_sampler
+        # K >= 2 keeps the gamma shape above 1: small shapes are floored at 1e-10 most of the time and would coincide
+        x = cs.sample(1.0, mt.k + 2, n_in + 2)
+        replay = GammaPriorConcentrationSampler(cs.a, cs.b, rng=np.random.default_rng(sd)).sample(1.0, mt.k + 2, n_in + 2)
+    except Exception as e:
+        raise crash_violation("call-site", e, tags)
+    if x == replay and x > 1e-9:
+        raise Violation("call-site/replayed-stream", "the concentration sampler built by setup_samplers returned %r after the chain generator had been advanced - exactly what a generator in the chain's initial state returns: its draws replay random numbers the chain has already consumed" % (x,), tags)
     classes = ["kind:site", "outliers" if mt.outliers else "no-outliers", "K=0" if mt.k == 0 else ("K>=2" if mt.k >= 2 else "K=1")]
     if case["new"] != case["alpha"] and abs(case["new"] - case["alpha"]) <= 1e-5 * abs(case["alpha"]) + 1e-8:
         classes.append("consecutive-values-nearly-equal-or-tiny")
